@@ -14,6 +14,7 @@
 
 import sys
 import pathlib
+import contextlib
 import zipfile
 import tempfile
 import io
@@ -44,6 +45,19 @@ def _compress_kwargs(compression, compresslevel):
         kwargs.pop("compresslevel")
 
     return kwargs
+
+
+@contextlib.contextmanager
+def _append_zip(root, **kwargs):
+    """Open an existing archive for appending
+
+    ``zipfile.ZipFile(path, "a")`` silently re-creates the file, dropping
+    the members written so far, when it cannot open it for update.
+    Open the file here so that the error is raised instead.
+    """
+    with open(root, "r+b") as fp:
+        with zipfile.ZipFile(fp, mode="a", **kwargs) as f:
+            yield f
 
 
 def make_root(root: pathlib.Path, is_zip: bool,
@@ -182,9 +196,8 @@ def pandas_to_pickle(obj, path: pathlib.Path,
             filepath = str(pathlib.Path(dirname).joinpath("temp"))
             obj.to_pickle(filepath)
             archive = get_archive_path(path, root)
-            with zipfile.ZipFile(
+            with _append_zip(
                     root,
-                    mode="a",
                     **_compress_kwargs(compression, compresslevel)
                     ) as f:
                 if not _archive_exists(archive, f):
@@ -228,8 +241,8 @@ def write_file(callback, path: pathlib.Path, mode,
     if root:
         archive = get_archive_path(path, root)
         with get_io(mode) as buff:
-            with zipfile.ZipFile(
-                    root, mode="a",
+            with _append_zip(
+                    root,
                     **_compress_kwargs(compression, compresslevel)
             ) as f:
                 if not _archive_exists(archive, f):
@@ -265,8 +278,8 @@ def copy_file(src: pathlib.Path, dst: pathlib.Path,
         arc_dst = get_archive_path(dst, root_dst)
         with zipfile.ZipFile(root_src, mode="r") as zip_src:
             with zip_src.open(arc_src, mode="r") as f_src:
-                with zipfile.ZipFile(
-                        root_dst, mode="a",
+                with _append_zip(
+                        root_dst,
                         **_compress_kwargs(compression, compresslevel)
                         ) as zip_dst:
                     if not _archive_exists(arc_dst, zip_dst):
@@ -296,9 +309,9 @@ def copy_file(src: pathlib.Path, dst: pathlib.Path,
         retries = 3
         for i in range(retries):
             try:
-                with zipfile.ZipFile(root_dst, mode="a",
-                                     **_compress_kwargs(compression, compresslevel)
-                                     ) as zip_dst:
+                with _append_zip(root_dst,
+                                 **_compress_kwargs(compression, compresslevel)
+                                 ) as zip_dst:
                     if not _archive_exists(arc_dst, zip_dst):
                         if is_valid_archive_path(arc_dst, zip_dst):
                             zip_dst.write(src, arc_dst)
